@@ -18,11 +18,12 @@ META = {
     "exhaustive": True,
 }
 GEN = ("scale_typegen",)
-SRC = ("match(Punctuated::last(P0.segments)@v1::Some.0@syn::PathSegment.arguments){PathArguments::None=>Vec::new();"
-       "PathArguments::AngleBracketed($)=>Iterator::collect(Iterator::map(Punctuated::iter(Punctuated::last(P0.segments)@v1::Some.0@syn::PathSegment.arguments@PathArguments::AngleBracketed.0.args),"
+LAST0 = "ok_or(Punctuated::last(P0.segments),substitutes::error(Spanned::span(P0),TypeSubstitutionErrorKind::EmptySubstitutePath))?.arguments"
+SRC = ("match(%s){PathArguments::None=>Vec::new();"
+       "PathArguments::AngleBracketed($)=>Iterator::collect(Iterator::map(Punctuated::iter(%s@PathArguments::AngleBracketed.0.args),"
        "|1|{ok_or(substitutes::get_valid_from_substitution_type(C1_0),substitutes::error(Spanned::span(C1_0),TypeSubstitutionErrorKind::InvalidFromType))}))?;"
-       "PathArguments::Parenthesized($)=>return Err(substitutes::error(Spanned::span(Punctuated::last(P0.segments)@v1::Some.0@syn::PathSegment.arguments@PathArguments::Parenthesized.0),TypeSubstitutionErrorKind::ExpectedAngleBracketGenerics))}")
-TGT = SRC.replace("P0.segments", "P1.segments").replace("get_valid_from_substitution_type", "get_valid_to_substitution_type").replace("InvalidFromType", "InvalidToType")
+       "PathArguments::Parenthesized($)=>return Err(substitutes::error(Spanned::span(%s@PathArguments::Parenthesized.0),TypeSubstitutionErrorKind::ExpectedAngleBracketGenerics))}") % (LAST0, LAST0, LAST0)
+TGT = SRC.replace("P0.segments", "P1.segments").replace("Spanned::span(P0)", "Spanned::span(P1)").replace("get_valid_from_substitution_type", "get_valid_to_substitution_type").replace("InvalidFromType", "InvalidToType")
 
 
 def check(ctx):
@@ -63,7 +64,7 @@ def check(ctx):
         SPEC = "TypeParamMapping::Specified(Iterator::collect(Iterator::map(Iterator::enumerate(%s),|1|{(C1_0.1,C1_0.0)})))" % SRCs
         ctx.expect(("Ok(if((slice::is_empty(%s)&&slice::is_empty(%s))){TypeParamMapping::PassThrough}else{" % (SRCs, TGTs)) in t, "C07.6", "mapping/pass-through-iff-no-generics", fn["sp"],
                    "PassThrough iff neither the source nor the target path declares generic arguments", "pass-through guard changed")
-        ctx.expect(("}else{%s})" % SPEC) in t, "C07.6", "mapping/index-by-source-position", fn["sp"],
+        ctx.expect(t.endswith("}else{%s})" % SPEC), "C07.6", "mapping/index-by-source-position", fn["sp"],
                    "each source parameter ident is mapped to its own position among the SOURCE arguments (enumerate, order-preserving)", "mapping construction changed: " + t[-400:])
     # replacer: one guarded write, one guarded recursion, full traversal (decided on the effects and their guards, not on the spelling of the loops)
     rf = q.fn1(P, "substitutes::replace_path_params_recursively", "scale_typegen")
@@ -112,8 +113,7 @@ def check(ctx):
                    "every angle-bracketed type-path argument of every segment is searched recursively with the same mapping", detail)
     expect_fn(ctx, "C07.7", "replacer/ident-shape", "substitutes::get_ident_from_type_path",
               "if(Option::is_some(P0.qself)){v1::None}else{if(Option::is_some(P0.path.leading_colon)){v1::None}else{if((Punctuated::len(P0.path.segments)>='2')){v1::None}else{"
-              "if(let v1::Some($)=Punctuated::last(P0.path.segments)){then(PathArguments::is_empty(Punctuated::last(P0.path.segments)@v1::Some.0.arguments),Punctuated::last(P0.path.segments)@v1::Some.0.ident)}"
-              "else{v1::None}}}}",
+              "then(PathArguments::is_empty(Punctuated::last(P0.path.segments)?.arguments),Punctuated::last(P0.path.segments)?.ident)}}}",
               "a parameter use is a bare single-segment path without qself, leading `::` or own arguments", "scale_typegen")
     # key ignores generics
     expect_fn(ctx, "C07.8", "key/idents-only", "substitutes::path_segments", "Iterator::collect(Iterator::map(Punctuated::iter(P0.segments),|1|{ToString::to_string(C1_0.ident)}))",
